@@ -114,46 +114,45 @@ static const bool KCONSTDESC[K_N] = {1, 0, 0, 0, 0, 0, 0, 0, 0, 0, 0, 1,   1, 1,
 // coarse family, used for the relation class of the earlier ops of a sequence
 static const int KGROUP[K_N] = {0, 1, 1, 2, 2, 2, 3, 3, 3, 4, 4, 0,   0, 5, 6, 0, 5, 6, 5,   1, 7, 7, 7, 7, 7, 7, 2, 3,   0, 5, 6, 5};
 
-struct Op { int kind; int a, b, c; const Shape* p; std::string str; };   // a: count/size (-1 = SIZE_MAX); b: room | offset; c: slice room
+struct Op { int kind; int a, b, c; const Shape* p; char str[48]; };   // a: count/size (-1 = SIZE_MAX); b: room | offset; c: slice room.  POD: op lists are built by every shard
 
-static std::string op_str(int kind, int a, int b, int c, const Shape* p) {
-    char s[160]; char sz[16]; if (a < 0) strcpy(sz, "MAX"); else snprintf(sz, sizeof sz, "%d", a);
+static void op_str(char* s, size_t cap, int kind, int a, int b, int c, const Shape* p) {
+    char sz[16]; if (a < 0) strcpy(sz, "MAX"); else snprintf(sz, sizeof sz, "%d", a);
     switch (kind) {
-    case K_SUM: snprintf(s, sizeof s, "sum()"); break;
-    case K_SHRINK_TO: snprintf(s, sizeof s, "shrink_to(%d)", a); break;
-    case K_SHRINK_LT: snprintf(s, sizeof s, "shrink_less_than(%d)", a); break;
-    case K_EXF: snprintf(s, sizeof s, "extract_front(%d)", a); break;
-    case K_EXF_BUF: snprintf(s, sizeof s, "extract_front(%d,buf[%d])", a, a); break;
-    case K_EXF_VIEW: snprintf(s, sizeof s, "extract_front(%d,view room=%d)", a, b); break;
-    case K_EXB: snprintf(s, sizeof s, "extract_back(%d)", a); break;
-    case K_EXB_BUF: snprintf(s, sizeof s, "extract_back(%d,buf[%d])", a, a); break;
-    case K_EXB_VIEW: snprintf(s, sizeof s, "extract_back(%d,view room=%d)", a, b); break;
-    case K_EXFC: snprintf(s, sizeof s, "extract_front_continuous(%d)", a); break;
-    case K_EXBC: snprintf(s, sizeof s, "extract_back_continuous(%d)", a); break;
-    case K_SLICE: snprintf(s, sizeof s, "slice(count=%d,offset=%d,view room=%d)", a, b, c); break;
-    case K_CPY_TO_BUF: snprintf(s, sizeof s, "memcpy_to(buf[%d],%d)", a, a); break;
-    case K_CPY_FROM_BUF: snprintf(s, sizeof s, "memcpy_from(buf[%d],%d)", a, a); break;
-    case K_PIPE_TO_BUF: snprintf(s, sizeof s, "pipe_to(buf[%d],%d)", a, a); break;
-    case K_CPY_TO_VIEW: snprintf(s, sizeof s, "memcpy_to(view%s,size=%s)", p->str, sz); break;
-    case K_CPY_FROM_VIEW: snprintf(s, sizeof s, "memcpy_from(view%s,size=%s)", p->str, sz); break;
-    case K_PIPE_TO_VIEW: snprintf(s, sizeof s, "pipe_to(view%s,size=%s)", p->str, sz); break;
-    case K_PIPE_FROM_VIEW: snprintf(s, sizeof s, "pipe_from(view%s,size=%s)", p->str, sz); break;
-    case K_TRUNCATE: snprintf(s, sizeof s, "truncate(%d)", a); break;
-    case K_PUSH_BACK: snprintf(s, sizeof s, "push_back(buf,%d)", a); break;
-    case K_PUSH_FRONT: snprintf(s, sizeof s, "push_front(buf,%d)", a); break;
-    case K_PUSH_BACK_ALLOC: snprintf(s, sizeof s, "push_back(size_t %d)", a); break;
-    case K_PUSH_FRONT_ALLOC: snprintf(s, sizeof s, "push_front(size_t %d)", a); break;
-    case K_POP_FRONT: snprintf(s, sizeof s, "pop_front()"); break;
-    case K_POP_BACK: snprintf(s, sizeof s, "pop_back()"); break;
-    case K_EXF_IOV: snprintf(s, sizeof s, "extract_front(%d,fresh IOVector)", a); break;
-    case K_EXB_IOV: snprintf(s, sizeof s, "extract_back(%d,fresh IOVector)", a); break;
-    case K_CPY_TO_IOV: snprintf(s, sizeof s, "memcpy_to(iovector%s,size=%s)", p->str, sz); break;
-    case K_CPY_FROM_IOV: snprintf(s, sizeof s, "memcpy_from(iovector%s,size=%s)", p->str, sz); break;
-    case K_PIPE_TO_IOV: snprintf(s, sizeof s, "pipe_to(iovector%s,size=%s)", p->str, sz); break;
-    case K_PIPE_FROM_IOV: snprintf(s, sizeof s, "pipe_from(iovector%s,size=%s)", p->str, sz); break;
+    case K_SUM: snprintf(s, cap, "sum()"); break;
+    case K_SHRINK_TO: snprintf(s, cap, "shrink_to(%d)", a); break;
+    case K_SHRINK_LT: snprintf(s, cap, "shrink_less_than(%d)", a); break;
+    case K_EXF: snprintf(s, cap, "extract_front(%d)", a); break;
+    case K_EXF_BUF: snprintf(s, cap, "extract_front(%d,buf[%d])", a, a); break;
+    case K_EXF_VIEW: snprintf(s, cap, "extract_front(%d,view room=%d)", a, b); break;
+    case K_EXB: snprintf(s, cap, "extract_back(%d)", a); break;
+    case K_EXB_BUF: snprintf(s, cap, "extract_back(%d,buf[%d])", a, a); break;
+    case K_EXB_VIEW: snprintf(s, cap, "extract_back(%d,view room=%d)", a, b); break;
+    case K_EXFC: snprintf(s, cap, "extract_front_continuous(%d)", a); break;
+    case K_EXBC: snprintf(s, cap, "extract_back_continuous(%d)", a); break;
+    case K_SLICE: snprintf(s, cap, "slice(count=%d,offset=%d,view room=%d)", a, b, c); break;
+    case K_CPY_TO_BUF: snprintf(s, cap, "memcpy_to(buf[%d],%d)", a, a); break;
+    case K_CPY_FROM_BUF: snprintf(s, cap, "memcpy_from(buf[%d],%d)", a, a); break;
+    case K_PIPE_TO_BUF: snprintf(s, cap, "pipe_to(buf[%d],%d)", a, a); break;
+    case K_CPY_TO_VIEW: snprintf(s, cap, "memcpy_to(view%s,size=%s)", p->str, sz); break;
+    case K_CPY_FROM_VIEW: snprintf(s, cap, "memcpy_from(view%s,size=%s)", p->str, sz); break;
+    case K_PIPE_TO_VIEW: snprintf(s, cap, "pipe_to(view%s,size=%s)", p->str, sz); break;
+    case K_PIPE_FROM_VIEW: snprintf(s, cap, "pipe_from(view%s,size=%s)", p->str, sz); break;
+    case K_TRUNCATE: snprintf(s, cap, "truncate(%d)", a); break;
+    case K_PUSH_BACK: snprintf(s, cap, "push_back(buf,%d)", a); break;
+    case K_PUSH_FRONT: snprintf(s, cap, "push_front(buf,%d)", a); break;
+    case K_PUSH_BACK_ALLOC: snprintf(s, cap, "push_back(size_t %d)", a); break;
+    case K_PUSH_FRONT_ALLOC: snprintf(s, cap, "push_front(size_t %d)", a); break;
+    case K_POP_FRONT: snprintf(s, cap, "pop_front()"); break;
+    case K_POP_BACK: snprintf(s, cap, "pop_back()"); break;
+    case K_EXF_IOV: snprintf(s, cap, "extract_front(%d,fresh IOVector)", a); break;
+    case K_EXB_IOV: snprintf(s, cap, "extract_back(%d,fresh IOVector)", a); break;
+    case K_CPY_TO_IOV: snprintf(s, cap, "memcpy_to(iovector%s,size=%s)", p->str, sz); break;
+    case K_CPY_FROM_IOV: snprintf(s, cap, "memcpy_from(iovector%s,size=%s)", p->str, sz); break;
+    case K_PIPE_TO_IOV: snprintf(s, cap, "pipe_to(iovector%s,size=%s)", p->str, sz); break;
+    case K_PIPE_FROM_IOV: snprintf(s, cap, "pipe_from(iovector%s,size=%s)", p->str, sz); break;
     default: abort();
     }
-    return s;
 }
 
 // ---------------------------------------------------------------------------------------------------------- access
@@ -267,7 +266,7 @@ static bool apply(Env& e, T& o, std::string& M, const Op& op, uint64_t& rel)
     Snap snap; snap.take(o);
     const std::string before = M;
     uint64_t r_ = 0; int outcome = 0;
-    if (e.c.verbose) fprintf(stderr, "  step %d: %s   on \"%s\" (%d elements)\n", e.step, op.str.c_str(), M.c_str(), n);
+    if (e.c.verbose) fprintf(stderr, "  step %d: %s   on \"%s\" (%d elements)\n", e.step, op.str, M.c_str(), n);
 
     switch (op.kind) {
     case K_SUM: {
@@ -286,8 +285,10 @@ static bool apply(Env& e, T& o, std::string& M, const Op& op, uint64_t& rel)
         std::string now; if (!denote_raw(e, "subject", EL(o), NE(o), now)) return false;
         if (now != M) FAILK("remaining", "kept \"%s\", reference \"%s\" (before \"%s\")", now.c_str(), M.c_str(), before.c_str());
         if (r != exr) {
-            if (a == 0) FAILK("zero-size-return", "shrink_less_than(0) emptied the view (kept 0 bytes) but returned %zu as excess; kept-size reference 0", r);
-            FAILK("return", "returned %zu, reference %zu (kept prefix %zu bytes - size %zu)", r, exr, keep, a);
+            if (a != 0) FAILK("return", "returned %zu, reference %zu (kept prefix %zu bytes - size %zu)", r, exr, keep, a);
+            // reported under its own signature; the view itself is consistent (empty), so a sequence goes on after it
+            e.c.fail("shrink_less_than:zero-size-return", "shrink_less_than(0) emptied the view (kept 0 bytes) but returned %zu as the excess of the kept part over size; reference 0", r);
+            outcome = 3;
         }
         break; }
     case K_EXF: {
@@ -385,6 +386,9 @@ static bool apply(Env& e, T& o, std::string& M, const Op& op, uint64_t& rel)
         if (vec && cnt == 0) { if (r != 0) FAILK("return", "returned %zd for an empty slice", r); break; }   // wrapper returns before touching *out
         if (r == -1) {
             outcome = 1;
+            // -1 is the documented refusal of an out view WITHOUT descriptor room supplied by the caller.  IOVector::slice
+            // sizes the out array itself when handed an empty view, so there a refusal is not the caller's shortage.
+            if (internal) FAILK("spurious-failure", "returned -1 (error) although IOVector::slice allocates the out array itself; vector has %d elements, %zu bytes; reference result: %zu bytes", n, T0, E.size());
             if (roomeff != 0) FAILK("spurious-failure", "returned -1 although the out view has room %d", roomeff);
             if (out.iov != outarr || out.iovcnt != 0) FAILK("out-view-escapes", "refused slice changed the out view");
             break;
@@ -515,12 +519,13 @@ struct Alpha {
 };
 
 static void add(std::vector<Op>& v, int kind, int a = 0, int b = 0, int c = 0, const Shape* p = nullptr) {
-    Op o; o.kind = kind; o.a = a; o.b = b; o.c = c; o.p = p; o.str = op_str(kind, a, b, c, p); v.push_back(o);
+    Op o; o.kind = kind; o.a = a; o.b = b; o.c = c; o.p = p; op_str(o.str, sizeof o.str, kind, a, b, c, p); v.push_back(o);
 }
 
 static const std::vector<Op>& ops_for(Alpha& al, bool vec, int T) {
     if (al.have[vec][T]) return al.cache[vec][T];
     std::vector<Op>& v = al.cache[vec][T]; al.have[vec][T] = true;
+    v.reserve(al.partners.size() * 130 + 2500);
     int K = T + al.extra;
     add(v, K_SUM);
     for (int a = 0; a <= K; a++) {
@@ -583,14 +588,14 @@ static void enum_depth(seqx::Ctx& c, Alpha& al, const std::vector<const Shape*>&
             const std::vector<Op>& L = ops_for(al, vec, s.total);
             const Op* seq[3];
             if (depth == 1) {
-                for (auto& o1 : L) { if (!c.begin("%s shape=%s | %s", sub, s.str, o1.str.c_str())) continue; seq[0] = &o1; run_case(c, vec, s, seq, 1); }
+                for (auto& o1 : L) { if (!c.begin("%s shape=%s | %s", sub, s.str, o1.str)) continue; seq[0] = &o1; run_case(c, vec, s, seq, 1); }
             } else if (depth == 2) {
                 for (auto& o1 : L) { if (!KMUT[o1.kind]) continue;
-                    for (auto& o2 : L) { if (!c.begin("%s shape=%s | %s | %s", sub, s.str, o1.str.c_str(), o2.str.c_str())) continue; seq[0] = &o1; seq[1] = &o2; run_case(c, vec, s, seq, 2); } }
+                    for (auto& o2 : L) { if (!c.begin("%s shape=%s | %s | %s", sub, s.str, o1.str, o2.str)) continue; seq[0] = &o1; seq[1] = &o2; run_case(c, vec, s, seq, 2); } }
             } else {
                 for (auto& o1 : L) { if (!KMUT[o1.kind]) continue;
                     for (auto& o2 : L) { if (!KMUT[o2.kind]) continue;
-                        for (auto& o3 : L) { if (!c.begin("%s shape=%s | %s | %s | %s", sub, s.str, o1.str.c_str(), o2.str.c_str(), o3.str.c_str())) continue; seq[0] = &o1; seq[1] = &o2; seq[2] = &o3; run_case(c, vec, s, seq, 3); } } }
+                        for (auto& o3 : L) { if (!c.begin("%s shape=%s | %s | %s | %s", sub, s.str, o1.str, o2.str, o3.str)) continue; seq[0] = &o1; seq[1] = &o2; seq[2] = &o3; run_case(c, vec, s, seq, 3); } } }
             }
         }
     }
